@@ -3,6 +3,7 @@ use super::out::{Out, RunCfg};
 
 pub mod common;
 pub mod c01;
+pub mod c02;
 pub mod c05;
 pub mod c08;
 pub mod c10;
@@ -18,6 +19,7 @@ pub mod idx;
 pub fn dispatch(prop: &str, cfg: &RunCfg, out: &Out) {
     match prop {
         "C01" => c01::run(cfg, out),
+        "C02" => c02::run(cfg, out),
         "C03" => idx::run(idx::Kind::C03, cfg, out),
         "C04" => idx::run(idx::Kind::C04, cfg, out),
         "C05" => c05::run(cfg, out),
